@@ -14,17 +14,25 @@ HUB_RULE = ('seeded histories (VERIF_SEED -> splitmix64) of 40-120 operations ov
             'A case counts as non-trivial/agreeing when the model reproduces the implementation\'s observable state after every operation.')
 
 
-def hub_suite(qn=150, tn=1200, ops_q=60, ops_t=120):
-    return [
-        {'name': 'hub', 'quick': '-n %d -ops %d' % (qn, ops_q), 'thorough': '-n %d -ops %d' % (tn, ops_t), 'shards': {'quick': 2, 'thorough': 16}},
-        {'name': 'hub', 'quick': '-n %d -ops %d -hostile' % (qn // 3, ops_q), 'thorough': '-n %d -ops %d -hostile' % (tn // 3, ops_t), 'shards': {'quick': 1, 'thorough': 8}},
-    ]
+def hub_suite(qn=150, tn=1200, ops_q=60, ops_t=120, hostile=True):
+    s = [{'name': 'hub', 'quick': '-n %d -ops %d' % (qn, ops_q), 'thorough': '-n %d -ops %d' % (tn, ops_t), 'shards': {'quick': 2, 'thorough': 16}}]
+    # boundary-directed: prefix-related token ids on one chain, many batches, out-of-order executions
+    s.append({'name': 'hub', 'quick': '-n %d -ops %d -directed' % (qn // 2, ops_q + 20), 'thorough': '-n %d -ops %d -directed' % (tn // 2, ops_t), 'shards': {'quick': 1, 'thorough': 8}})
+    if hostile:
+        # 2^250-scale amounts, negative/overflowing fees, zero deposits, unknown tokens
+        s.append({'name': 'hub', 'quick': '-n %d -ops %d -hostile' % (qn // 3, ops_q), 'thorough': '-n %d -ops %d -hostile' % (tn // 3, ops_t), 'shards': {'quick': 1, 'thorough': 8}})
+    return s
 
 
 PROPS = {
     'C04': {'suites': hub_suite(), 'trusted_base': HUB_TB, 'rule': HUB_RULE,
             'assumptions': ['chain ids are prefix-free (true of ethereum/minter/bsc/hub; checked by Example C04_hypothesis_satisfiable)',
                             'uint64 counters do not wrap (2^64 sends are unreachable)']},
+    'C12': {'suites': hub_suite(hostile=False), 'trusted_base': HUB_TB, 'rule': HUB_RULE,
+            'assumptions': ['chain ids are prefix-free', 'expiry is decided on whole-millisecond block times (the harness only uses such times)']},
+    'C13': {'suites': hub_suite(hostile=False), 'trusted_base': HUB_TB, 'rule': HUB_RULE,
+            'assumptions': ['chain ids are prefix-free',
+                            '"can no longer execute" relies on the contract model (block.number < timeout, per-token nonce) of C08 and on observed heights coming only from applied events (C03)']},
     'C10': {'suites': hub_suite(), 'trusted_base': HUB_TB, 'rule': HUB_RULE,
             'assumptions': ['chain ids are prefix-free', 'uint64 counters do not wrap']},
 }
